@@ -176,6 +176,10 @@ class Den:
             out = []
             for g in range(count):
                 members = [a[i] for i in range(len(ids)) if ids[i] == g and (e[2] is None or roles[i] == e[2])]
+                if e[1] == "from_person":
+                    # the value of the one member holding the unique role, 0 when nobody does
+                    out.append(members[0] if len(members) == 1 else 0)
+                    continue
                 if e[1] == "sum":
                     out.append(sum(members))
                 elif e[1] == "any":
